@@ -58,6 +58,7 @@ type ActionJSON struct {
 	Value     string   `json:"value,omitempty"`
 	Shard     int      `json:"shard,omitempty"`
 	Msg       int      `json:"msg,omitempty"`
+	RCAE      bool     `json:"return_call_after_error,omitempty"`
 	Text      string   `json:"text"`
 }
 
@@ -74,6 +75,7 @@ func ToJSON(a world.Action) ActionJSON {
 			j.Args = append(j.Args, hex.EncodeToString(x))
 		}
 		j.Gas, j.GasLocked, j.CallType, j.Shard = a.Gas, a.GasLocked, int(a.CallType), a.Shard
+		j.RCAE = a.ReturnAfterError
 		if a.Value != nil {
 			j.Value = a.Value.String()
 		}
@@ -109,6 +111,7 @@ func FromJSON(j ActionJSON) (world.Action, error) {
 			a.Args = append(a.Args, b)
 		}
 		a.Gas, a.GasLocked, a.CallType, a.Shard = j.Gas, j.GasLocked, vmcommon.CallType(j.CallType), j.Shard
+		a.ReturnAfterError = j.RCAE
 		if j.Value != "" {
 			v, ok := new(big.Int).SetString(j.Value, 10)
 			if !ok {
@@ -160,6 +163,9 @@ func DescribeAction(a world.Action) string {
 	s := fmt.Sprintf("%s->%s %s(%s)", uni.Name(a.Caller), uni.Name(a.Recipient), a.Func, strings.Join(as, ","))
 	if a.CallType != 0 {
 		s += fmt.Sprintf(" callType=%d", a.CallType)
+	}
+	if a.ReturnAfterError {
+		s += " returnCallAfterError"
 	}
 	if a.Gas != uni.Gas {
 		s += fmt.Sprintf(" gas=%d", a.Gas)
